@@ -1306,6 +1306,17 @@ class Interp(object):
                         d = None if dd is None else (1 if dd else 0)
                     if isinstance(d, BV):
                         d = d.concrete()
+                    if not isinstance(d, int) and d is not None and lin_parts(d) is not None:
+                        # a match on an affine value with a known range (the character code of one region): decided when the range lies on one
+                        # side of every literal arm
+                        lo_, hi_ = lin_range(d)
+                        hit_ = [tb for v_, tb in t["arms"] if lo_ == hi_ == v_]
+                        if hit_:
+                            b = hit_[0]
+                            continue
+                        if all(v_ < lo_ or v_ > hi_ for v_, tb in t["arms"]):
+                            b = t["otherwise"]
+                            continue
                     if not isinstance(d, int):
                         raise Undecided("a helper branches on a value that is unknown on this path")
                     tgt = None
